@@ -249,9 +249,11 @@ pub fn check(ctx: &Ctx) -> i32 {
             }
         }
     }
-    // channels x rates for every audio kind
+    // channels x rates for every audio kind; Opus additionally with channel counts beyond the
+    // eight of mapping family 1 (the dOps record must still match its own family byte)
     for &ac in &oracle::frames::ACODECS {
-        for ch in 1..=8u16 {
+        let chans: Vec<u16> = if ac.is_aac() { (1..=8).collect() } else { (1..=8).chain([9, 16, 255]).collect() };
+        for ch in chans {
             for &r in AAC_RATES.iter() {
                 if r >= 65536 {
                     continue; // the 16.16 rate field cannot hold these: C16's finding
@@ -299,7 +301,7 @@ pub fn check(ctx: &Ctx) -> i32 {
         &tally,
         Meta {
             level: "exploration",
-            rule: format!("{np} progressive files: the configuration space (4 codecs x {{none, 6 AAC profiles, Opus}} x fast start on/off x 5 metadata shapes) x dimensions {{320x240, 1920x1080, 4096x2160, 65535x65535}} x {{0, 1, 3}} frames{}, plus channels 1-8 x the standard sample rates below 65536 Hz for every audio kind; {nf} fragmented configurations (4 codecs x builder/FragmentConfig x dimensions x timescales x start DTS) with their init segment and two media segments. Every fixed-layout header box and configuration record is decoded field by field from ISO/IEC 14496-12/-14/-15 and the AV1 / VP9 / Opus bindings (size, version, flags, reserved bits) av1C bit positions are checked with eleven sequence headers that set every field of its two packed bytes differently (four with 2-4 operating points whose later points carry another level and the opposite tier); and the configured dimensions, timescales, enabled flags, identity matrices, handler types and track IDs are recovered. Distinct by the reader-reduced moov.", if ctx.thorough { "" } else { " (metadata variants thinned in the quick tier)" }),
+            rule: format!("{np} progressive files: the configuration space (4 codecs x {{none, 6 AAC profiles, Opus}} x fast start on/off x 5 metadata shapes) x dimensions {{320x240, 1920x1080, 4096x2160, 65535x65535}} x {{0, 1, 3}} frames{}, plus channels 1-8 (Opus also 9, 16, 255) x the standard sample rates below 65536 Hz for every audio kind; {nf} fragmented configurations (4 codecs x builder/FragmentConfig x dimensions x timescales x start DTS) with their init segment and two media segments. Every fixed-layout header box and configuration record is decoded field by field from ISO/IEC 14496-12/-14/-15 and the AV1 / VP9 / Opus bindings (size, version, flags, reserved bits) av1C bit positions are checked with eleven sequence headers that set every field of its two packed bytes differently (four with 2-4 operating points whose later points carry another level and the opposite tier); and the configured dimensions, timescales, enabled flags, identity matrices, handler types and track IDs are recovered. Distinct by the reader-reduced moov.", if ctx.thorough { "" } else { " (metadata variants thinned in the quick tier)" }),
             bound: "configuration space as listed; 0/1/3 frames".into(),
             exhaustive: true,
             assumptions: vec!["the reader's field decoders are written from the specifications and are the trusted base".into(), "the optional High-profile extension of avcC is not demanded".into(), "for init segments the movie timescale is compared with the fragment timescale".into()],
